@@ -183,36 +183,46 @@ structure Authority where
   host : Host
   port : Option Nat
 
+/-- authority state: everything before the last '@' is the credentials -/
+def splitCredentials (auth : Bytes) : Option Bytes × Bytes :=
+  match lastIndexOf 0x40 auth with
+  | some i => (some (auth.take i), auth.drop (i + 1))
+  | none => (none, auth)
+
+def credUser (cred : Option Bytes) : Bytes :=
+  match cred with
+  | none => []
+  | some c => percentEncode inUserinfo (cutAt 0x3A c).1
+def credPass (cred : Option Bytes) : Bytes :=
+  match cred with
+  | none => []
+  | some c => percentEncode inUserinfo ((cutAt 0x3A c).2.getD [])
+
+/-- host state + port state on the text after the credentials -/
+def parseHostPort (idna : Idna) (scheme : Bytes) (hostport : Bytes) : Option (Host × Option Nat) :=
+  let special := isSpecialScheme scheme
+  let he := hostEnd hostport
+  if he < hostport.length then
+    -- ':' outside brackets at index `he`
+    if (hostport.take he).isEmpty then none
+    else match hostParse idna (hostport.take he) (!special) with
+      | none => none
+      | some h => match parsePort scheme (hostport.drop (he + 1)) with
+        | none => none
+        | some port => some (h, port)
+  else
+    if hostport.isEmpty then (if special then none else some (.empty, none))
+    else match hostParse idna hostport (!special) with
+      | none => none
+      | some h => some (h, none)
+
 /-- authority + host + port states on the authority text (already cut at `/ ? #`, `\` if special) -/
 def parseAuthority (idna : Idna) (scheme : Bytes) (auth : Bytes) : Option Authority :=
-  let special := isSpecialScheme scheme
-  let (cred, hostport) : Option Bytes × Bytes :=
-    match lastIndexOf 0x40 auth with
-    | some i => (some (auth.take i), auth.drop (i + 1))
-    | none => (none, auth)
-  if cred.isSome && hostport.isEmpty then none else   -- host-missing after '@'
-  let (user, pass) : Bytes × Bytes :=
-    match cred with
-    | none => ([], [])
-    | some c =>
-      let (u, p) := cutAt 0x3A c
-      (percentEncode inUserinfo u, percentEncode inUserinfo (p.getD []))
-  let he := hostEnd hostport
-  let hostText := hostport.take he
-  let portText : Option Bytes := if he < hostport.length then some (hostport.drop (he + 1)) else none
-  if portText.isSome && hostText.isEmpty then none else   -- ':' with empty buffer
-  if special && hostText.isEmpty then none else
-  match hostParse idna hostText (!special) with
-  | none => none
-  | some h =>
-    -- an empty non-special host text parses to the empty opaque host
-    let h := if hostText.isEmpty then Host.empty else h
-    match portText with
-    | none => some ⟨user, pass, h, none⟩
-    | some pt =>
-      match parsePort scheme pt with
-      | none => none
-      | some port => some ⟨user, pass, h, port⟩
+  let ch := splitCredentials auth
+  if ch.1.isSome && ch.2.isEmpty then none   -- host-missing after '@'
+  else match parseHostPort idna scheme ch.2 with
+    | none => none
+    | some hp => some ⟨credUser ch.1, credPass ch.1, hp.1, hp.2⟩
 
 /-- cut `text` at the end of the authority -/
 def authorityEnd (special : Bool) (text : Bytes) : Nat :=
